@@ -497,6 +497,39 @@ pub fn run(ctx: &mut Ctx) {
                     }
                 }
             }
+            // unknown on both sides - the same unknown name, two different ones, random text, known names with altered case / blanks
+            // (names are trimmed, lower-cased and stripped of degree signs before lookup: "KG " is a known spelling)
+            let unknown = ["", "furlong", "kgg", "k g", "m\\s", "°", "lb ft", "lightyear", "parsec", "0", "kg\u{0}", "kg.", "°°"];
+            let unknown: Vec<&str> = unknown.iter().copied().filter(|x| ["kg", "l", "m/s", "c"].iter().all(|k| conv(1.0, x, k).is_err())).collect();
+            rep.add("unit_unknown_names_confirmed", unknown.len() as u64);
+            for x in unknown.iter().copied() {
+                for y in unknown.iter().copied() {
+                    let out = conv(1.0, x, y);
+                    rep.eval();
+                    rep.count("unit_rejections");
+                    rep.count(if x == y { "unit_rejections_same_unknown_both_sides" } else { "unit_rejections_unknown_both_sides" });
+                    if !out.is_err() {
+                        rep.viol("units|unknown-unit-accepted", &format!("uomConvert(1.0, {:?}, {:?}) gave {}", x, y, out.show()), json!({"from": x, "to": y}));
+                    }
+                }
+            }
+            for _ in 0..40 {
+                let x = crate::vals::random_string(rng, 5);
+                // a name counts as unknown when it converts to no unit of any category (then it cannot convert to itself either)
+                if ["kg", "l", "m/s", "c"].iter().any(|k| !conv(1.0, &x, k).is_err()) {
+                    rep.count("unit_random_names_known");
+                    continue;
+                }
+                for (p, q) in [(x.as_str(), x.as_str()), (x.as_str(), "kg"), ("kg", x.as_str())] {
+                    let out = conv(2.0, p, q);
+                    rep.eval();
+                    rep.count("unit_rejections");
+                    rep.count("unit_rejections_random_names");
+                    if !out.is_err() {
+                        rep.viol("units|unknown-unit-accepted", &format!("uomConvert(2.0, {:?}, {:?}) gave {}", p, q, out.show()), json!({"from": p, "to": q}));
+                    }
+                }
+            }
             rep.distinct("unit-errors", true);
         }
     });
